@@ -20,6 +20,8 @@ def run_seed(sid):
     try:
         ap = subprocess.run(["git", "-C", wt, "apply", os.path.join(d, "patch.diff")], capture_output=True)
         if ap.returncode != 0:
+            ap = subprocess.run(["git", "-C", wt, "apply", "--3way", os.path.join(d, "patch.diff")], capture_output=True)
+        if ap.returncode != 0:
             return sid, {"error": "patch does not apply"}
         for pid in available():
             p = subprocess.run(["/venv/bin/python", "-m", "vstatic", "check", pid], cwd="/verif", capture_output=True, text=True,
@@ -32,7 +34,7 @@ def run_seed(sid):
 
 
 def main():
-    with ThreadPoolExecutor(max_workers=8) as ex:
+    with ThreadPoolExecutor(max_workers=14) as ex:
         out = dict(ex.map(run_seed, SEEDS))
     json.dump(out, open("/verif/seeded/MATRIX.json", "w"), indent=1, sort_keys=True)
     lines = ["| seed | breaks | caught by (check: rules) | own-property check |", "|---|---|---|---|"]
